@@ -75,6 +75,9 @@ def strip_const_deep(s):
     s = re.sub(r'\b(const|volatile|struct|class|enum)\b', ' ', s)
     s = re.sub(r'\s+', ' ', s).strip()
     s = re.sub(r'\s*([<>,*&])\s*', r'\1', s)
+    # bool template arguments: clang prints true/false in types but dumps 0/-1 as values
+    s = re.sub(r'(?<=[<,])false(?=[,>])', '0', s)
+    s = re.sub(r'(?<=[<,])(true|-1)(?=[,>])', '1', s)
     return s
 
 
@@ -158,6 +161,12 @@ class Index:
             self.parent[nid] = parent_id
         name = n.get('name')
         newctx, dep = ctx, dependent
+        pdc = n.get('parentDeclContextId')
+        if pdc and pdc in self.qname and self.by_id.get(pdc, {}).get('kind') in (
+                'CXXRecordDecl', 'ClassTemplateSpecializationDecl') and kind != 'NamespaceDecl':
+            # out-of-line definition of a member (class or function): semantic context
+            ctx = self.qname[pdc] + '::'
+            n['_semantic_parent'] = pdc
         if kind == 'NamespaceDecl':
             newctx = ctx + (name or '(anonymous namespace)') + '::'
         elif kind in ('CXXRecordDecl', 'ClassTemplateSpecializationDecl',
@@ -296,6 +305,7 @@ class Fn:
         self.record = None
         self.src = None
         self.region_ret = False
+        self.names = {}
 
 
 class Lowerer:
@@ -367,7 +377,40 @@ class Lowerer:
                 under = e.get('fixedUnderlyingType', {}).get('desugaredQualType') or \
                     e.get('fixedUnderlyingType', {}).get('qualType') or 'int'
                 return Ty('enum', name=BUILTIN.get(under, 'int'), key=q)
-        return Ty('rec', name=mangle(s2), key=key)
+        key = self.canon_record(key)
+        return Ty('rec', name=mangle(key), key=key)
+
+    def canon_record(self, key):
+        """resolve sugar the AST left in a type string: missing namespaces and
+        defaulted template arguments (Vec<int> == manifold::Vec<int,0>)"""
+        recs = self.idx.records
+        if key in recs or key.startswith('std::') or key.startswith('(lambda'):
+            return key
+        c = self._canon_cache.get(key)
+        if c:
+            return c
+        cands = [k for k in recs if k == key or k.endswith('::' + key)]
+        if not cands and '<' in key:
+            head, args = key.split('<', 1)
+            args = args[:-1]
+            for k in recs:
+                if '<' not in k:
+                    continue
+                h2, a2 = k.split('<', 1)
+                if (h2 == head or h2.endswith('::' + head)) and a2[:-1].startswith(args + ','):
+                    cands.append(k)
+        if len(cands) == 1:
+            self._canon_cache[key] = cands[0]
+            return cands[0]
+        if len(cands) > 1:
+            # prefer the one whose extra arguments are all 0 (defaults in this code base)
+            z = [k for k in cands if re.fullmatch(r'.*<.*?((,0)*)>', k) and k.split('<', 1)[1][:-1].endswith(',0')]
+            if len(z) == 1:
+                self._canon_cache[key] = z[0]
+                return z[0]
+        return key
+
+    _canon_cache = {}
 
     def cty(self, t):
         """C type text for non-array types"""
@@ -502,6 +545,16 @@ class Lowerer:
                 base = (mangle(owner) + '_' if owner else '') + 'op_' + opn
             if n.get('kind') == 'CXXConstructorDecl':
                 base = mangle(q.rsplit('::', 1)[0]) + '_ctor'
+        if n.get('kind') == 'CXXMethodDecl' and n['type']['qualType'].rstrip().endswith('const'):
+            rec = self.idx.record_of_method(n)
+            sig = n['type']['qualType']
+            params = sig[sig.find('('): sig.rfind(')') + 1]
+            for sib in (rec or {}).get('inner', []):
+                if sib.get('kind') == 'CXXMethodDecl' and sib.get('name') == n.get('name') and sib['id'] != n['id']:
+                    ss = sib['type']['qualType']
+                    if ss[ss.find('('): ss.rfind(')') + 1] == params and not ss.rstrip().endswith('const'):
+                        base += '_c'
+                        break
         # disambiguate overloads by parameter types
         name = base
         if name in self.by_cname and self.by_cname[name] != nid:
@@ -580,6 +633,7 @@ class Lowerer:
         for p in self.params_of(n):
             pt = self.ty(p['type'])
             pname = p.get('name') or ('_unused%d' % len(params))
+            f.names[p['id']] = pname
             if pt.kind == 'ref':
                 f.refvars.add(p['id'])
                 params.append(self.cdecl(Ty('ptr', to=pt.to), pname))
@@ -618,10 +672,11 @@ class Lowerer:
         guards = ''.join('#ifndef LOOPSPEC_%s_%d\n#define LOOPSPEC_%s_%d\n#endif\n' % (f.cname, k, f.cname, k)
                          for k in range(f.loops))
         guards += '#ifndef FNSPEC_%s\n#define FNSPEC_%s\n#endif\n' % (f.cname, f.cname)
+        guards += '#ifndef CANARYSPEC_%s\n#define CANARYSPEC_%s\n#endif\n' % (f.cname, f.cname)
         fl, ln = node_line(n)
         f.src = (fl, ln)
-        f.text = '/* %s  from %s */\n%s%s\nFNSPEC_%s\n%s\n' % (
-            self.idx.qname.get(n['id'], f.cname), where(n), guards, head, f.cname, btxt)
+        f.text = '/* %s  from %s */\n%s%s\nFNSPEC_%s CANARYSPEC_%s\n%s\n' % (
+            self.idx.qname.get(n['id'], f.cname), where(n), guards, head, f.cname, f.cname, btxt)
         self.cur = None
 
     def ctor_inits(self, n, f):
@@ -637,7 +692,7 @@ class Lowerer:
                 inited.add(fname)
                 if init is not None and init.get('kind') == 'CXXDefaultInitExpr':
                     fd = self.idx.by_id.get(c['anyInit']['id'])
-                    ini = [x for x in fd.get('inner', []) if 'kind' in x and x['kind'].endswith(('Expr', 'Literal', 'Operator'))]
+                    ini = [x for x in fd.get('inner', []) if 'valueCategory' in x]
                     if not ini:
                         raise Unsupported('default member init missing for %s' % fname)
                     init = ini[0]
@@ -1083,9 +1138,10 @@ class Lowerer:
                 return self.global_var(d)
             if rk == 'VarDecl' and d is None:
                 return self.external_var(r)
+            nm = f.names.get(rid) or r['name']
             if rid in f.refvars:
-                return '(*%s)' % r['name']
-            return r['name']
+                return '(*%s)' % nm
+            return nm
         if rk == 'EnumConstantDecl':
             return self.enum_const(r)
         if rk in ('FunctionDecl', 'CXXMethodDecl'):
@@ -1353,6 +1409,12 @@ class Lowerer:
                 return self.stub_call(e, key, d, r, obj, args)
         if d is None:
             return self.builtin_call(e, r, obj, args)
+        if q and q.startswith('linalg::') and obj is None and d.get('kind') == 'FunctionDecl':
+            import lower_ext
+            txt = lower_ext.linalg_call(self, e, d, name, args)
+            if txt is not None:
+                return txt
+            raise Unsupported('linalg function %s %s is not in the fixed table at %s' % (q, d['type']['qualType'], where(e)))
         if q and (q.startswith('linalg::') or q.startswith('std::')) and not Index.has_body(d):
             return self.builtin_call(e, r, obj, args)
         if not Index.has_body(d):
@@ -1410,6 +1472,11 @@ class Lowerer:
         if r['kind'] == 'CXXMethodDecl':
             base = args[0]
             d = self.idx.by_id.get(r['id'])
+            if d is not None and r.get('name') == 'operator=' and (d.get('isImplicit') or d.get('explicitlyDefaulted')) \
+                    and len(args) == 2:
+                t = self.ty(base['type']).noref()
+                self.check_struct_copy(t, e)
+                return '(%s = %s)' % (self.expr(base), self.expr(args[1]))
             if d is None:
                 return self.builtin_method(e, {'name': r['name']}, base, self.addr(base), args[1:])
             # lambda call operator
@@ -1478,7 +1545,7 @@ class Lowerer:
             parts = []
             for c in rec.get('inner', []):
                 if c.get('kind') == 'FieldDecl':
-                    ini = [x for x in c.get('inner', []) if isinstance(x, dict) and x.get('kind')]
+                    ini = [x for x in c.get('inner', []) if isinstance(x, dict) and 'valueCategory' in x]
                     parts.append('.%s = %s' % (c['name'], self.expr(ini[0])) if ini else None)
             return '((%s){%s})' % (self.cty(t), ', '.join(p for p in parts if p) or '0')
         return '((%s){0})' % self.cty(t)
